@@ -3,7 +3,7 @@ import re
 
 from sa import mir, tables, locks
 from sa.mir import backslice, AnchorMissing
-from rules import C18
+from rules import C18, C17
 
 TITLE = ("C02: lock discipline and publication protocol — index/eviction mutations only under the shard write lock, read-lock paths are pure, "
          "reference counts taken inside the critical section, atomic orderings, flag writers, dispatcher agreement.")
@@ -220,6 +220,7 @@ def run(chk, F):
     chk.run_rule("C02.refs-in-cs", "reference counts are incremented inside the shard critical section (or by a caller that already owns one)", 4, refs_in_cs, F)
     chk.run_rule("C02.orderings", "refs RMW >= AcqRel, flag RMW >= Release, loads >= Acquire; helpers pass the requested ordering through", 9, orderings, F)
     chk.run_rule("C02.flag-pairing", "in-indexer flag written only by the Sentry wrapper (true on insert, false on leave); in-eviction flag only by Eviction impls", 16, flag_pairing, F)
+    chk.run_rule("C02.probe-eq", "every hash-table probe (memory index, in-flight table) answers `found` only on key equality", 9, C17.probe_eq, F)
     chk.run_rule("C02.handle-immutable", "no code path assigns to or mutably borrows Record.data", 4, C18.immutable, F)
     chk.run_rule("C02.dispatch", "every five-way dispatcher forwards to the same method in all arms", 20, dispatch, F)
 
